@@ -47,6 +47,14 @@ def histories(rng, tier):
                 for m in {1 << b, full & ~(1 << b), full}:
                     acts = [("with", n, st), ("apply", (kind, theta, 1 << b)), ("dump",), ("measure", m), ("dump",), ("measure", m), ("dump",)]
                     hs.append((rng.randrange(1 << 30), acts))
+    # amplitudes so faint that their squared modulus underflows to zero (they are not zero: their ratio to the rest of the
+    # state is part of the statement): one qubit turned by 1e-170 .. 1e-300 next to a qubit in superposition that is measured
+    for n in (2, 3):
+        for theta in (4e-170, -4e-170, 2.5e-200, 1e-300):
+            for kind in ("rx", "ry"):
+                a, b = rng.sample(range(n), 2)
+                acts = [("new", n), ("apply", ("h", 1 << a)), ("apply", (kind, theta, 1 << b)), ("dump",), ("measure", 1 << a), ("dump",)]
+                hs.append((rng.randrange(1 << 30), acts))
     # the projection must not depend on the threading model: a third of the histories under num_threads(k),
     # plus systematic threaded measurements of high qubits on 4-6 qubit registers
     hs = regcheck.thread_mix(rng, hs, 0.33)
@@ -103,6 +111,14 @@ def oracle(acts, recs):
                                     fails.append("consistent amplitude %d not rescaled uniformly" % i); break
                             elif v1[i] != 0:
                                 fails.append("amplitude %d inconsistent with the outcome is %r, not exactly 0" % (i, v1[i])); break
+                        # mutual ratios, relative to each amplitude's own size (faint amplitudes are amplitudes too)
+                        cons = [i for i in range(1 << n) if (i & em) == outcome and abs(v0[i]) > 1e-290]
+                        if cons:
+                            k0 = max(cons, key=lambda i: abs(v0[i]))
+                            r0 = v1[k0] / v0[k0]
+                            for i in cons:
+                                if abs(v1[i] / v0[i] - r0) > 1e-9 * abs(r0):
+                                    fails.append("consistent amplitudes %d and %d changed their ratio: scaled by %r and %r" % (k0, i, r0, v1[i] / v0[i])); break
                 last_m = None
             prev = r
         elif r[0] == "m":
